@@ -1,7 +1,7 @@
 (** C05 - lemmas about the metric models.  Summation-order, counting and structural facts; all
     arithmetic statements are over the real-number instance R_ops. *)
 From Coq Require Import List NArith Bool Reals Lra Lia Permutation Sorted.
-From LinfaVerif Require Import Common.Num Common.NdSum C05.Model.
+From LinfaVerif Require Import Common.Num Common.NdSum Common.B32 C05.Model C05.F32Exact.
 Import ListNotations.
 Local Open Scope R_scope.
 
@@ -323,24 +323,30 @@ Proof.
     + rewrite IH by (auto; lia). reflexivity.
 Qed.
 
-(* matrices *)
-Definition wf (k : nat) (m : list (list R)) : Prop := length m = k /\ Forall (fun r => length r = k) m.
-
-Lemma zeros_wf k : wf k (zeros R_ops k).
-Proof. unfold wf, zeros. rewrite repeat_length. split; auto. apply Forall_forall. intros r Hr. apply repeat_spec in Hr. subst. apply repeat_length. Qed.
+(* matrices, in any arithmetic *)
+Definition wf {F : Type} (k : nat) (m : list (list F)) : Prop := length m = k /\ Forall (fun r => length r = k) m.
 
 Lemma nth_repeat_any {A} (a : A) n i : nth i (repeat a n) a = a.
 Proof. revert i; induction n as [|n IH]; intros [|i]; simpl; auto. Qed.
 
-Lemma get_zeros k i j : get R_ops (zeros R_ops k) i j = 0.
+Lemma iter_shift {A} (f : A -> A) n x : Nat.iter n f (f x) = f (Nat.iter n f x).
+Proof. induction n as [|n IH]; simpl; congruence. Qed.
+
+Section GenCells.
+Context {F : Type} (o : NumOps F).
+
+Lemma zeros_wf k : wf k (zeros o k).
+Proof. unfold wf, zeros. rewrite repeat_length. split; auto. apply Forall_forall. intros r Hr. apply repeat_spec in Hr. subst. apply repeat_length. Qed.
+
+Lemma get_zeros k i j : get o (zeros o k) i j = zero o.
 Proof.
   unfold get, zeros. destruct (Nat.lt_ge_cases i k) as [Hi|Hi].
-  - rewrite (nth_repeat_lt _ _ k i) by exact Hi. apply (nth_repeat_any (zero R_ops)).
-  - rewrite (nth_overflow (repeat (repeat (zero R_ops) k) k) []) by (rewrite repeat_length; exact Hi). destruct j; reflexivity.
+  - rewrite (nth_repeat_lt _ _ k i) by exact Hi. apply (nth_repeat_any (zero o)).
+  - rewrite (nth_overflow (repeat (repeat (zero o) k) k) []) by (rewrite repeat_length; exact Hi). destruct j; reflexivity.
 Qed.
 
-Definition bump (m : list (list R)) (i j : nat) : list (list R) :=
-  upd m i (fun r => upd r j (fun v => v + 1)).
+Definition bump (m : list (list F)) (i j : nat) : list (list F) :=
+  upd m i (fun r => upd r j (fun v => add o v (one o))).
 
 Lemma bump_wf k m i j : wf k m -> wf k (bump m i j).
 Proof.
@@ -353,46 +359,45 @@ Proof.
 Qed.
 
 Lemma get_bump k m i j i' j' : wf k m -> (i < k)%nat -> (j < k)%nat ->
-  get R_ops (bump m i j) i' j' = get R_ops m i' j' + (if (Nat.eqb i' i && Nat.eqb j' j)%bool then 1 else 0).
+  get o (bump m i j) i' j' = if (Nat.eqb i' i && Nat.eqb j' j)%bool then add o (get o m i' j') (one o) else get o m i' j'.
 Proof.
   intros [H1 H2] Hi Hj. unfold get, bump. rewrite nth_upd. rewrite H1.
-  destruct (Nat.eqb i' i) eqn:E1; simpl.
-  - apply Nat.eqb_eq in E1. subst i'. replace (Nat.ltb i k) with true by (symmetry; apply Nat.ltb_lt; exact Hi).
-    rewrite nth_upd. rewrite Forall_forall in H2. rewrite (H2 (nth i m [])) by (apply nth_In; lia).
-    replace (Nat.ltb j k) with true by (symmetry; apply Nat.ltb_lt; exact Hj).
-    destruct (Nat.eqb j' j) eqn:E2; simpl.
-    + apply Nat.eqb_eq in E2. subst j'. reflexivity.
-    + lra.
-  - lra.
+  destruct (Nat.eqb i' i) eqn:E1; simpl; [|reflexivity].
+  apply Nat.eqb_eq in E1. subst i'. replace (Nat.ltb i k) with true by (symmetry; apply Nat.ltb_lt; exact Hi).
+  rewrite nth_upd. rewrite Forall_forall in H2. rewrite (H2 (nth i m [])) by (apply nth_In; lia).
+  replace (Nat.ltb j k) with true by (symmetry; apply Nat.ltb_lt; exact Hj).
+  destruct (Nat.eqb j' j) eqn:E2; simpl; [|reflexivity].
+  apply Nat.eqb_eq in E2. subst j'. reflexivity.
 Qed.
 
+(** every cell is the initial cell incremented once per matching (prediction, truth) pair *)
 Lemma cm_count_cells cs : NoDup cs ->
   forall pred truth m0, wf (length cs) m0 ->
   forall i j, (i < length cs)%nat -> (j < length cs)%nat -> forall d,
-  get R_ops (fold_left (fun m pt =>
+  get o (fold_left (fun m pt =>
                match index_of leqb (fst pt) cs, index_of leqb (snd pt) cs with
-               | Some i, Some j => upd m i (fun r => upd r j (fun v => add R_ops v (one R_ops)))
+               | Some i, Some j => upd m i (fun r => upd r j (fun v => add o v (one o)))
                | _, _ => m
                end) (combine pred truth) m0) i j
-  = get R_ops m0 i j + INR (count_pairs leqb (nth i cs d) (nth j cs d) pred truth).
+  = Nat.iter (count_pairs leqb (nth i cs d) (nth j cs d) pred truth) (fun v => add o v (one o)) (get o m0 i j).
 Proof.
   intros Hnd. induction pred as [|p pred IH]; intros truth m0 Hwf i j Hi Hj d.
-  - simpl. lra.
-  - destruct truth as [|t truth]; [simpl; lra|].
+  - reflexivity.
+  - destruct truth as [|t truth]; [reflexivity|].
     cbn [combine fold_left fst snd count_pairs].
     set (m1 := match index_of leqb p cs with
                | Some i0 => match index_of leqb t cs with
-                            | Some j0 => upd m0 i0 (fun r => upd r j0 (fun v => add R_ops v (one R_ops)))
+                            | Some j0 => upd m0 i0 (fun r => upd r j0 (fun v => add o v (one o)))
                             | None => m0 end
                | None => m0 end).
     assert (Hm1 : wf (length cs) m1 /\
-                  get R_ops m1 i j = get R_ops m0 i j + (if (leqb p (nth i cs d) && leqb t (nth j cs d))%bool then 1 else 0)).
+                  get o m1 i j = if (leqb p (nth i cs d) && leqb t (nth j cs d))%bool then add o (get o m0 i j) (one o) else get o m0 i j).
     { unfold m1. destruct (index_of leqb p cs) as [i0|] eqn:Ep.
       - destruct (index_of leqb t cs) as [j0|] eqn:Et.
         + destruct (index_of_some _ _ _ Ep) as [Hi0 Hp]. destruct (index_of_some _ _ _ Et) as [Hj0 Ht].
           split; [apply (bump_wf _ m0 i0 j0 Hwf)|].
-          change (upd m0 i0 (fun r => upd r j0 (fun v => add R_ops v (one R_ops)))) with (bump m0 i0 j0).
-          rewrite (get_bump (length cs)) by auto. f_equal.
+          change (upd m0 i0 (fun r => upd r j0 (fun v => add o v (one o)))) with (bump m0 i0 j0).
+          rewrite (get_bump (length cs)) by auto.
           destruct (Nat.eqb i i0) eqn:E1; simpl.
           * apply Nat.eqb_eq in E1. subst i0. rewrite (Hp d), leqb_refl. simpl.
             destruct (Nat.eqb j j0) eqn:E2.
@@ -402,28 +407,42 @@ Proof.
           * destruct (leqb p (nth i cs d)) eqn:E3; auto. apply Heq in E3.
             rewrite E3 in Ep. rewrite index_of_nth in Ep by auto. inversion Ep. subst. rewrite Nat.eqb_refl in E1. discriminate.
         + split; auto. apply index_of_none in Et.
-          destruct (leqb t (nth j cs d)) eqn:E3; [|rewrite andb_false_r; lra].
+          destruct (leqb t (nth j cs d)) eqn:E3; [|rewrite andb_false_r; reflexivity].
           apply Heq in E3. exfalso. apply Et. rewrite E3. apply nth_In. exact Hj.
       - split; auto. apply index_of_none in Ep.
-        destruct (leqb p (nth i cs d)) eqn:E3; [|simpl; lra].
+        destruct (leqb p (nth i cs d)) eqn:E3; [|reflexivity].
         apply Heq in E3. exfalso. apply Ep. rewrite E3. apply nth_In. exact Hi. }
     destruct Hm1 as [Hw1 Hg1]. rewrite (IH truth m1 Hw1 i j Hi Hj d). rewrite Hg1.
-    rewrite plus_INR. destruct (leqb p (nth i cs d) && leqb t (nth j cs d))%bool; simpl; lra.
+    destruct (leqb p (nth i cs d) && leqb t (nth j cs d))%bool; simpl; [apply (iter_shift (fun v => add o v (one o))) | reflexivity].
 Qed.
 
-Lemma cm_count_wf cs pred truth : wf (length cs) (cm_count R_ops leqb cs pred truth).
+Lemma cm_count_wf cs pred truth : wf (length cs) (cm_count o leqb cs pred truth).
 Proof.
-  unfold cm_count. generalize (zeros_wf (length cs)). generalize (zeros R_ops (length cs)).
+  unfold cm_count. generalize (zeros_wf (length cs)). generalize (zeros o (length cs)).
   generalize (combine pred truth). induction l as [|pt l IH]; intros m Hm; simpl; auto.
   apply IH. destruct (index_of leqb (fst pt) cs); auto. destruct (index_of leqb (snd pt) cs); auto.
   apply (bump_wf _ m n n0 Hm).
 Qed.
 
+(** in every arithmetic: cell (i, j) is 0 incremented by 1 once per sample of that (predicted, true) pair *)
+Lemma cm_cells_iter cs pred truth i j d : NoDup cs -> (i < length cs)%nat -> (j < length cs)%nat ->
+  get o (cm_count o leqb cs pred truth) i j
+  = Nat.iter (count_pairs leqb (nth i cs d) (nth j cs d) pred truth) (fun v => add o v (one o)) (zero o).
+Proof.
+  intros Hnd Hi Hj. unfold cm_count. rewrite (cm_count_cells cs Hnd pred truth _ (zeros_wf _) i j Hi Hj d).
+  rewrite get_zeros. reflexivity.
+Qed.
+End GenCells.
+
+Lemma iter_plus1_R n x : Nat.iter n (fun v => add R_ops v (one R_ops)) x = x + INR n.
+Proof.
+  induction n as [|n IH]; [simpl; lra|]. rewrite S_INR. cbn [Nat.iter nat_rect]. unfold Nat.iter in IH. rewrite IH. simpl. lra.
+Qed.
+
 Lemma cm_cells_gen cs pred truth i j d : NoDup cs -> (i < length cs)%nat -> (j < length cs)%nat ->
   get R_ops (cm_count R_ops leqb cs pred truth) i j = INR (count_pairs leqb (nth i cs d) (nth j cs d) pred truth).
 Proof.
-  intros Hnd Hi Hj. unfold cm_count. rewrite (cm_count_cells cs Hnd pred truth _ (zeros_wf _) i j Hi Hj d).
-  rewrite get_zeros. lra.
+  intros Hnd Hi Hj. rewrite (cm_cells_iter R_ops cs pred truth i j d Hnd Hi Hj). rewrite iter_plus1_R. simpl. lra.
 Qed.
 
 (* sums of indicator functions over a duplicate-free list *)
@@ -1578,4 +1597,369 @@ Proof.
   split.
   - rewrite ev_code_form by discriminate. unfold sst_spec, mean_s, sum_s, ofn, sq. simpl. f_equal. lra.
   - unfold ev_spec, sst_spec, mean_s, sum_s, ofn, sq. simpl. lra.
+Qed.
+
+
+(** * binary32 cells are the integer counts *)
+Lemma count_pairs_le {L} (leqb : L -> L -> bool) a b pred truth : (count_pairs leqb a b pred truth <= length pred)%nat.
+Proof.
+  revert truth; induction pred as [|p pred IH]; intros [|t truth]; simpl; try lia.
+  specialize (IH truth). destruct (leqb p a && leqb t b)%bool; lia.
+Qed.
+
+Lemma cm_cells_f32 {L} (lltb leqb : L -> L -> bool) (H : label_order lltb leqb) pred truth i j d :
+  let cs := classes lltb leqb pred truth in
+  (i < length cs)%nat -> (j < length cs)%nat -> (N.of_nat (length pred) <= 262144)%N ->
+  get B32_ops (cm_count B32_ops leqb cs pred truth) i j
+  = of_N B32_ops (N.of_nat (count_pairs leqb (nth i cs d) (nth j cs d) pred truth)).
+Proof.
+  destruct H as [H1 H2 H3 H4]. intros cs Hi Hj Hn.
+  rewrite (cm_cells_iter leqb H1 B32_ops cs pred truth i j d (classes_nodup lltb leqb H1 H2 H3 H4 pred truth) Hi Hj).
+  apply f32_count_exact. pose proof (count_pairs_le leqb (nth i cs d) (nth j cs d) pred truth). lia.
+Qed.
+
+(** * Silhouette *)
+Section SilProofs.
+Context {L : Type} (leqb : L -> L -> bool).
+
+Lemma fold_cond_add {A} (p : A -> bool) (g : A -> R) l : forall a,
+  fold_left (fun acc y => if p y then add R_ops acc (g y) else acc) l a = a + Rsum (map g (filter p l)).
+Proof.
+  induction l as [|y l IH]; intros a; simpl; [lra|]. rewrite IH. destruct (p y); simpl; lra.
+Qed.
+
+Lemma total_to_R X ls x c :
+  total_to R_ops leqb X ls x c = Rsum (map (edist R_ops x) (members leqb X ls c)).
+Proof.
+  unfold total_to, members.
+  rewrite (fold_cond_add (fun yl : list R * L => leqb c (snd yl)) (fun yl => edist R_ops x (fst yl))).
+  simpl zero. rewrite map_map. lra.
+Qed.
+
+Lemma fold_skip (l : L) (h : L -> R) (cs : list L) : forall b0 : option R,
+  fold_left (fun b c => if leqb l c then b else min_opt R_ops b (h c)) cs b0
+  = fold_left (fun b c => min_opt R_ops b (h c)) (filter (fun c => negb (leqb l c)) cs) b0.
+Proof.
+  induction cs as [|c cs IH]; intros b0; simpl; auto. destruct (leqb l c); simpl; apply IH.
+Qed.
+
+Lemma fold_min_some (h : L -> R) t : forall w,
+  fold_left (fun b c => min_opt R_ops b (h c)) t (Some w)
+  = Some (fold_left (fun a b => if ltb R_ops b a then b else a) (map h t) w).
+Proof.
+  induction t as [|c t IH]; intros w; simpl; auto. destruct (Rltb (h c) w); apply IH.
+Qed.
+
+Lemma sample_score_R X ls cs x l :
+  (exists c, In c cs /\ leqb l c = false) ->
+  (count_label leqb l ls = 1%nat -> Rsum (map (edist R_ops x) (members leqb X ls l)) = 0) ->
+  sample_score R_ops leqb X ls cs x l = sil_sample_spec R_ops leqb X ls cs x l.
+Proof.
+  intros [c0 [Hc0 Hl0]] Hone. unfold sample_score, sil_sample_spec, mean_dist_to.
+  rewrite fold_skip. rewrite !total_to_R. change (sum_s R_ops) with Rsum.
+  (* the other clusters are not empty *)
+  destruct (filter (fun c => negb (leqb l c)) cs) as [|c1 t] eqn:Ef.
+  { exfalso. assert (Hin : In c0 (filter (fun c => negb (leqb l c)) cs)) by (apply filter_In; split; auto; rewrite Hl0; reflexivity).
+    rewrite Ef in Hin. destruct Hin. }
+  cbn [fold_left]. unfold min_opt at 2. rewrite fold_min_some. cbn [map min_list].
+  rewrite !total_to_R.
+  rewrite (map_ext (fun c => div R_ops (total_to R_ops leqb X ls x c) (ofn R_ops (count_label leqb c ls)))
+                   (fun c => div R_ops (Rsum (map (edist R_ops x) (members leqb X ls c))) (ofn R_ops (count_label leqb c ls))))
+    by (intros; rewrite total_to_R; reflexivity).
+  set (b := fold_left (fun a b => if ltb R_ops b a then b else a) _ _).
+  assert (Ha : (if Nat.eqb (count_label leqb l ls) 1 then zero R_ops
+                else div R_ops (Rsum (map (edist R_ops x) (members leqb X ls l))) (ofn R_ops (count_label leqb l ls - 1)))
+               = div R_ops (Rsum (map (edist R_ops x) (members leqb X ls l))) (ofn R_ops (count_label leqb l ls - 1))).
+  { destruct (Nat.eqb (count_label leqb l ls) 1) eqn:E; [|reflexivity].
+    apply Nat.eqb_eq in E. rewrite (Hone E). simpl. unfold Rdiv. lra. }
+  rewrite Ha. set (a := div R_ops _ _).
+  cbn [leb ltb R_ops]. destruct (Rleb b a) eqn:E1; destruct (Rltb a b) eqn:E2; try reflexivity.
+  - apply Rleb_true in E1. apply Rltb_true in E2. lra.
+  - apply Rleb_false in E1. apply Rltb_false in E2. lra.
+Qed.
+
+Lemma silhouette_R X ls :
+  let cs := distinct leqb ls [] in
+  length X = length ls ->
+  length cs <> 1%nat ->
+  (forall x l, In (x, l) (combine X ls) ->
+     (exists c, In c cs /\ leqb l c = false) /\
+     (count_label leqb l ls = 1%nat -> Rsum (map (edist R_ops x) (members leqb X ls l)) = 0)) ->
+  silhouette R_ops leqb X ls = silhouette_spec R_ops leqb X ls.
+Proof.
+  intros cs Hlen Hk Hall. unfold silhouette, silhouette_spec. fold cs.
+  replace (Nat.eqb (length cs) 1) with false by (symmetry; apply Nat.eqb_neq; exact Hk).
+  rewrite fsum_R. unfold mean_s. rewrite map_length. change (sum_s R_ops) with Rsum.
+  rewrite combine_length, <- Hlen, Nat.min_id.
+  f_equal. apply Rsum_map_ext. intros [x l] Hin. cbn [fst snd]. destruct (Hall x l Hin) as [H1 H2]. apply sample_score_R; auto.
+Qed.
+End SilProofs.
+
+Section SilTop.
+Context {L : Type} (leqb : L -> L -> bool).
+Context (Heq : forall x y, leqb x y = true <-> x = y).
+
+Lemma in_distinct x ls : forall seen, In x (distinct leqb ls seen) <-> In x ls \/ In x seen.
+Proof.
+  induction ls as [|l ls IH]; intros seen; simpl.
+  - rewrite <- in_rev. tauto.
+  - destruct (existsb (leqb l) seen) eqn:E.
+    + rewrite IH. apply existsb_exists in E. destruct E as [y [Hy1 Hy2]]. apply Heq in Hy2. subst y.
+      split; [tauto|]. intros [[<-|H]|H]; auto.
+    + rewrite IH. simpl. split; [intros [H|[<-|H]]; auto | intros [[<-|H]|H]; auto].
+Qed.
+
+Lemma edist_self (x : list R) : edist R_ops x x = 0.
+Proof.
+  unfold edist. rewrite csum_R.
+  assert (H : Rsum (map (sq R_ops) (vsub R_ops x x)) = 0).
+  { unfold vsub. induction x as [|v x IH]; [reflexivity|].
+    cbn [combine map Rsum fold_right fst snd]. fold (Rsum (map (sq R_ops) (map (fun p : R * R => sub R_ops (fst p) (snd p)) (combine x x)))).
+    rewrite IH. unfold sq. simpl. lra. }
+  rewrite H. simpl. apply sqrt_0.
+Qed.
+
+Lemma members_count (X : list (list R)) ls c : length X = length ls ->
+  length (members leqb X ls c) = count_label leqb c ls.
+Proof.
+  unfold members, count_label. rewrite map_length. revert ls. induction X as [|x X IH]; intros [|l ls] Hlen; simpl in *; try discriminate; auto.
+  destruct (leqb c l); simpl; rewrite IH by lia; reflexivity.
+Qed.
+
+Lemma in_members (X : list (list R)) ls x l : In (x, l) (combine X ls) -> In x (members leqb X ls l).
+Proof.
+  intros H. unfold members. apply in_map_iff. exists (x, l). split; auto. apply filter_In. split; auto.
+  simpl. apply Heq. reflexivity.
+Qed.
+
+Lemma singleton_total X ls x l : length X = length ls -> In (x, l) (combine X ls) ->
+  count_label leqb l ls = 1%nat -> Rsum (map (edist R_ops x) (members leqb X ls l)) = 0.
+Proof.
+  intros Hlen Hin Hc. pose proof (members_count X ls l Hlen) as Hm. rewrite Hc in Hm.
+  pose proof (in_members X ls x l Hin) as Hx.
+  destruct (members leqb X ls l) as [|y [|z t]]; try discriminate.
+  destruct Hx as [->|[]]. cbn [map Rsum fold_right]. rewrite edist_self. lra.
+Qed.
+
+Lemma silhouette_top X ls : length X = length ls ->
+  (forall l, In l ls -> exists c, In c ls /\ c <> l) ->
+  silhouette R_ops leqb X ls = silhouette_spec R_ops leqb X ls.
+Proof.
+  intros Hlen H2. apply silhouette_R; auto.
+  - (* not a single cluster *)
+    intros H1. destruct (distinct leqb ls []) as [|c [|c' t]] eqn:E; try discriminate.
+    assert (Hc : In c ls). { assert (In c (distinct leqb ls [])) by (rewrite E; left; auto). apply in_distinct in H. destruct H as [H|[]]; auto. }
+    destruct (H2 c Hc) as [c2 [Hc2 Hne]].
+    assert (In c2 (distinct leqb ls [])) by (apply in_distinct; left; auto). rewrite E in H. destruct H as [H|[]]. congruence.
+  - intros x l Hin. split.
+    + assert (Hl : In l ls) by (apply in_combine_r in Hin; exact Hin).
+      destruct (H2 l Hl) as [c [Hc Hne]]. exists c. split; [apply in_distinct; left; exact Hc|].
+      destruct (leqb l c) eqn:E; auto. apply Heq in E. congruence.
+    + apply singleton_total; auto.
+Qed.
+End SilTop.
+
+Example ex_silhouette_hypotheses :
+  let X := [[0]; [1]; [5]; [6]] in let ls := [0; 0; 1; 1]%N in
+  length X = length ls /\ (forall l, In l ls -> exists c, In c ls /\ c <> l).
+Proof.
+  split; [reflexivity|]. intros l Hl. simpl in Hl.
+  destruct Hl as [<-|[<-|[<-|[<-|[]]]]]; [exists 1%N | exists 1%N | exists 0%N | exists 0%N]; split; simpl; auto; discriminate.
+Qed.
+
+Example ex_label_orders : label_order N.ltb N.eqb /\ label_order (fun a b => negb a && b) Bool.eqb.
+Proof. split; [exact N_label_order | exact bool_label_order]. Qed.
+
+Example ex_regression_perm :
+  Permutation [(1, 2); (3, 5); (0, 0)] [(0, 0); (1, 2); (3, 5)] /\
+  mean_absolute_error R_ops [1; 3; 0] [2; 5; 0] = mean_absolute_error R_ops [0; 1; 3] [0; 2; 5].
+Proof.
+  assert (H : Permutation [(1, 2); (3, 5); (0, 0)] [(0, 0); (1, 2); (3, 5)]).
+  { apply Permutation_sym. apply (Permutation_cons_app [(1, 2); (3, 5)] [] (0, 0)). rewrite app_nil_r. apply Permutation_refl. }
+  split; [exact H|]. exact (mae_perm _ _ H).
+Qed.
+
+(** * Pearson coefficients *)
+Definition fmaR (a b c : R) : R := a * b + c.
+
+Lemma welford_inv l : forall mean ssq i pre,
+  i = N.of_nat (length pre) ->
+  INR (length pre) * mean = Rsum pre ->
+  ssq = Rsum (map (fun y => y * y) pre) - mean * Rsum pre ->
+  let '(mean', ssq', i') := fold_left (fun st x => let '(mean, ssq, i) := st in
+                         let count := of_N R_ops (N.succ i) in
+                         let delta := sub R_ops x mean in
+                         let mean' := add R_ops mean (div R_ops delta count) in
+                         (mean', fmaR (sub R_ops x mean') delta ssq, N.succ i)) l (mean, ssq, i) in
+  INR (length (pre ++ l)) * mean' = Rsum (pre ++ l) /\
+  ssq' = Rsum (map (fun y => y * y) (pre ++ l)) - mean' * Rsum (pre ++ l).
+Proof.
+  induction l as [|x l IH]; intros mean ssq i pre Hi Hm Hs.
+  - simpl. rewrite app_nil_r. auto.
+  - cbn [fold_left]. replace (pre ++ x :: l) with ((pre ++ [x]) ++ l) by (rewrite <- app_assoc; reflexivity).
+    apply IH.
+    + rewrite app_length. simpl. rewrite Hi. lia.
+    + rewrite app_length, plus_INR, Rsum_app. simpl length. simpl INR. subst i. simpl of_N.
+      rewrite Nnat.N2Nat.inj_succ, Nnat.Nat2N.id, S_INR. simpl.
+      assert (Hk : INR (length pre) + 1 <> 0) by (pose proof (pos_INR (length pre)); lra).
+      field_simplify_eq; [|exact Hk]. rewrite <- Hm. ring.
+    + subst i. simpl of_N. rewrite Nnat.N2Nat.inj_succ, Nnat.Nat2N.id, S_INR.
+      rewrite map_app, !Rsum_app. simpl. unfold fmaR.
+      assert (Hk : INR (length pre) + 1 <> 0) by (pose proof (pos_INR (length pre)); lra).
+      set (k := INR (length pre)) in *. set (S := Rsum pre) in *. set (Q := Rsum (map (fun y => y * y) pre)) in *.
+      set (m' := mean + (x - mean) / (k + 1)).
+      assert (E : (k + 1) * m' = S + x). { unfold m'. field_simplify_eq; [|exact Hk]. rewrite <- Hm. ring. }
+      rewrite Hs.
+      assert (G : m' * (mean + S) = mean * (x + S)). { rewrite <- Hm. replace (mean + k * mean) with ((k + 1) * mean) by ring. replace (m' * ((k + 1) * mean)) with (((k + 1) * m') * mean) by ring. rewrite E. rewrite <- Hm. ring. }
+      nra.
+Qed.
+
+Lemma welford_R xs : xs <> [] ->
+  let '(mean, ssq, _) := welford R_ops fmaR xs in
+  INR (length xs) * mean = Rsum xs /\ ssq = Rsum (map (fun y => y * y) xs) - mean * Rsum xs.
+Proof.
+  intros _. unfold welford.
+  pose proof (welford_inv xs (zero R_ops) (zero R_ops) 0%N [] eq_refl) as H. simpl app in H.
+  destruct (fold_left _ xs (zero R_ops, zero R_ops, 0%N)) as [[mean ssq] i]. apply H; simpl; lra.
+Qed.
+
+(* the variance of a column whose sum is zero *)
+Lemma var1_centred d : (2 <= length d)%nat -> Rsum d = 0 ->
+  var1 R_ops fmaR d = Rsum (map (fun y => y * y) d) / (INR (length d) - 1).
+Proof.
+  intros Hn Hz. unfold var1. assert (Hne : d <> []) by (destruct d; simpl in Hn; [lia | discriminate]).
+  pose proof (welford_R d Hne) as H. destruct (welford R_ops fmaR d) as [[mean ssq] i]. destruct H as [H1 H2].
+  rewrite ofn_R. rewrite H2, Hz. simpl. f_equal. ring.
+Qed.
+
+Lemma Rsum_map_sub_const (x : list R) c : Rsum (map (fun v => v - c) x) = Rsum x - INR (length x) * c.
+Proof.
+  induction x as [|v x IH]; [simpl; lra|]. change (length (v :: x)) with (S (length x)). rewrite S_INR. simpl. rewrite IH. lra.
+Qed.
+
+Lemma centred_sum_zero (x : list R) : x <> [] -> Rsum (map (fun v => v - mean_s R_ops x) x) = 0.
+Proof.
+  intros Hx. rewrite Rsum_map_sub_const, mean_s_R. field. apply INR_length_nonzero. exact Hx.
+Qed.
+
+(** one coefficient: covariance / (n-1) divided by both standard deviations is the textbook coefficient *)
+Lemma pearson_entry (x y : list R) : length x = length y -> (2 <= length x)%nat ->
+  0 < cov_s R_ops x x -> 0 < cov_s R_ops y y ->
+  let dx := map (fun v => v - mean_s R_ops x) x in
+  let dy := map (fun v => v - mean_s R_ops y) y in
+  dotp R_ops dx dy / (INR (length x) - 1) / R_sqrt.sqrt (var1 R_ops fmaR dx) / R_sqrt.sqrt (var1 R_ops fmaR dy)
+  = pearson_pair_spec R_ops x y.
+Proof.
+  intros Hlen Hn Vx Vy dx dy.
+  assert (Hx : x <> []) by (destruct x; simpl in Hn; [lia | discriminate]).
+  assert (Hy : y <> []) by (destruct y; simpl in Hn, Hlen; [lia | discriminate]).
+  assert (N1 : 0 < INR (length x) - 1). { apply le_INR in Hn. simpl in Hn. lra. }
+  assert (Cxy' : forall (u w : list R), cov_s R_ops u w
+            = dotp R_ops (map (fun v => v - mean_s R_ops u) u) (map (fun v => v - mean_s R_ops w) w)).
+  { intros u w. unfold cov_s, dotp. cbv zeta. rewrite seq_sum_R. change (sum_s R_ops) with Rsum. f_equal.
+    generalize (mean_s R_ops u) (mean_s R_ops w). intros mu mw. revert w.
+    induction u as [|a u IH]; intros [|b w]; simpl; auto. rewrite IH. reflexivity. }
+  assert (Dself : forall d : list R, dotp R_ops d d = Rsum (map (fun v => v * v) d)).
+  { intros d. unfold dotp. rewrite seq_sum_R. f_equal. induction d as [|a d IH]; [reflexivity|]. cbn [combine map fst snd]. rewrite IH. reflexivity. }
+  assert (Cxx : cov_s R_ops x x = Rsum (map (fun v => v * v) dx)) by (rewrite Cxy', Dself; reflexivity).
+  assert (Cyy : cov_s R_ops y y = Rsum (map (fun v => v * v) dy)) by (rewrite Cxy', Dself; reflexivity).
+  assert (Cxy : cov_s R_ops x y = dotp R_ops dx dy) by (apply Cxy').
+  assert (Ldx : length dx = length x) by (unfold dx; apply map_length).
+  assert (Ldy : length dy = length x) by (unfold dy; rewrite map_length; auto).
+  assert (Zx : Rsum dx = 0) by (apply centred_sum_zero; auto).
+  assert (Zy : Rsum dy = 0) by (apply centred_sum_zero; auto).
+  rewrite (var1_centred dx) by (try exact Zx; rewrite Ldx; exact Hn).
+  rewrite (var1_centred dy) by (try exact Zy; rewrite Ldy; exact Hn).
+  rewrite Ldx, Ldy. rewrite <- Cxx, <- Cyy, <- Cxy.
+  unfold pearson_pair_spec. simpl sqrt. simpl mul. simpl div.
+  rewrite !sqrt_div_alt by exact N1.
+  assert (Sx : 0 < R_sqrt.sqrt (cov_s R_ops x x)) by (apply sqrt_lt_R0; exact Vx).
+  assert (Sy : 0 < R_sqrt.sqrt (cov_s R_ops y y)) by (apply sqrt_lt_R0; exact Vy).
+  assert (Sn : 0 < R_sqrt.sqrt (INR (length x) - 1)) by (apply sqrt_lt_R0; exact N1).
+  assert (Sq : R_sqrt.sqrt (INR (length x) - 1) * R_sqrt.sqrt (INR (length x) - 1) = INR (length x) - 1) by (apply sqrt_sqrt; lra).
+  field_simplify_eq; try (repeat split; lra).
+  replace (R_sqrt.sqrt (INR (length x) - 1) ^ 2) with (R_sqrt.sqrt (INR (length x) - 1) * R_sqrt.sqrt (INR (length x) - 1)) by ring.
+  rewrite Sq. ring.
+Qed.
+
+Lemma flat_map_ext_in {A B} (f g : A -> list B) l : (forall a, In a l -> f a = g a) -> flat_map f l = flat_map g l.
+Proof.
+  induction l as [|a l IH]; intros H; simpl; auto. rewrite (H a) by (left; auto). rewrite IH; auto. intros; apply H; right; auto.
+Qed.
+
+Lemma nth_map_combine {A B C} (f : A * B -> C) (r : list A) (mu : list B) j da db dc :
+  (j < length r)%nat -> (j < length mu)%nat -> nth j (map f (combine r mu)) dc = f (nth j r da, nth j mu db).
+Proof.
+  revert r mu; induction j as [|j IH]; intros [|a r] [|b mu] H1 H2; simpl in *; try lia; auto. apply IH; lia.
+Qed.
+
+Section PearsonTop.
+Variable X : list (list R).
+Variable p : nat.
+Hypothesis Hrect : Forall (fun r => length r = p) X.
+Hypothesis Hn : (2 <= length X)%nat.
+
+Lemma ncols_p : ncols X = p.
+Proof. destruct X as [|r X']; [simpl in Hn; lia|]. inversion Hrect; subst. reflexivity. Qed.
+
+Lemma xcol_length j : length (xcol R_ops X j) = length X.
+Proof. unfold xcol. apply map_length. Qed.
+
+Lemma col_means_nth j : (j < p)%nat -> nth j (col_means R_ops X) 0 = mean_s R_ops (xcol R_ops X j).
+Proof.
+  intros Hj. unfold col_means. rewrite ncols_p. rewrite nth_map_seq by exact Hj.
+  rewrite seq_sum_R, mean_s_R, xcol_length, ofn_R. reflexivity.
+Qed.
+
+Lemma col_means_length : length (col_means R_ops X) = p.
+Proof. unfold col_means. rewrite map_length, seq_length. apply ncols_p. Qed.
+
+Lemma xcol_denoise j : (j < p)%nat ->
+  xcol R_ops (denoise R_ops X) j = map (fun v => v - mean_s R_ops (xcol R_ops X j)) (xcol R_ops X j).
+Proof.
+  intros Hj. unfold xcol at 1, denoise. rewrite map_map. unfold xcol at 2. rewrite map_map.
+  apply map_ext_in. intros r Hr. pose proof (proj1 (Forall_forall _ _) Hrect r Hr) as Hlr.
+  rewrite (nth_map_combine _ r (col_means R_ops X) j 0 0 (zero R_ops)); [| rewrite Hlr; exact Hj | rewrite col_means_length; exact Hj].
+  cbn [fst snd]. rewrite col_means_nth by exact Hj. reflexivity.
+Qed.
+
+Lemma pearson_top :
+  (forall j, (j < p)%nat -> 0 < cov_s R_ops (xcol R_ops X j) (xcol R_ops X j)) ->
+  pearson R_ops fmaR X =
+  flat_map (fun i => map (fun j => pearson_pair_spec R_ops (xcol R_ops X i) (xcol R_ops X j)) (seq (S i) (p - S i))) (seq 0 p).
+Proof.
+  intros Hv. unfold pearson. rewrite ncols_p.
+  apply flat_map_ext_in. intros i Hi. apply in_seq in Hi. apply map_ext_in. intros j Hj. apply in_seq in Hj.
+  assert (Hip : (i < p)%nat) by lia. assert (Hjp : (j < p)%nat) by lia.
+  rewrite !nth_map_seq by assumption. rewrite !xcol_denoise by assumption.
+  rewrite ofn_R, minus_INR by lia. simpl INR.
+  rewrite <- (xcol_length i) at 1.
+  apply (pearson_entry (xcol R_ops X i) (xcol R_ops X j)).
+  - rewrite !xcol_length. reflexivity.
+  - rewrite xcol_length. exact Hn.
+  - apply Hv; exact Hip.
+  - apply Hv; exact Hjp.
+Qed.
+End PearsonTop.
+
+Example ex_pearson_hypotheses :
+  let X := [[0; 0]; [1; 2]; [2; 1]] in
+  Forall (fun r => length r = 2%nat) X /\ (2 <= length X)%nat /\
+  (forall j, (j < 2)%nat -> 0 < cov_s R_ops (xcol R_ops X j) (xcol R_ops X j)) /\
+  pearson R_ops fmaR X = [1 / 2].
+Proof.
+  cbv zeta.
+  assert (H1 : Forall (fun r : list R => length r = 2%nat) [[0; 0]; [1; 2]; [2; 1]]) by (repeat constructor).
+  assert (H2 : (2 <= length [[0; 0]; [1; 2]; [2; 1]])%nat) by (simpl; lia).
+  assert (C0 : cov_s R_ops (xcol R_ops [[0; 0]; [1; 2]; [2; 1]] 0) (xcol R_ops [[0; 0]; [1; 2]; [2; 1]] 0) = 2).
+  { unfold cov_s, mean_s, sum_s, ofn, xcol. simpl. field. }
+  assert (C1 : cov_s R_ops (xcol R_ops [[0; 0]; [1; 2]; [2; 1]] 1) (xcol R_ops [[0; 0]; [1; 2]; [2; 1]] 1) = 2).
+  { unfold cov_s, mean_s, sum_s, ofn, xcol. simpl. field. }
+  assert (C01 : cov_s R_ops (xcol R_ops [[0; 0]; [1; 2]; [2; 1]] 0) (xcol R_ops [[0; 0]; [1; 2]; [2; 1]] 1) = 1).
+  { unfold cov_s, mean_s, sum_s, ofn, xcol. simpl. field. }
+  assert (H3 : forall j, (j < 2)%nat -> 0 < cov_s R_ops (xcol R_ops [[0; 0]; [1; 2]; [2; 1]] j) (xcol R_ops [[0; 0]; [1; 2]; [2; 1]] j)).
+  { intros [|[|j]] Hj; [rewrite C0; lra | rewrite C1; lra | lia]. }
+  repeat split; auto.
+  rewrite (pearson_top _ 2 H1 H2 H3). cbn [seq flat_map map app Nat.sub]. unfold pearson_pair_spec. rewrite C0, C1, C01.
+  f_equal. simpl. rewrite sqrt_sqrt by lra. lra.
 Qed.
